@@ -27,7 +27,9 @@ type PropertySpec struct {
 	NotDecided  string
 	Rules       []*Rule
 	Variants    []Variant // extra build variants analysed in the thorough tier
-	NeedsLZ4    bool
+	// SkipVariants: the thorough tier's common variants (gocql_debug, linux/386) this property is not decided on, with the reason
+	SkipVariants map[string]string
+	NeedsLZ4     bool
 }
 
 var registry = map[string]*PropertySpec{}
@@ -142,12 +144,30 @@ func cmdCheck(args []string) int {
 	variants := []Variant{defaultVariant}
 	if deep {
 		variants = append(variants, ps.Variants...)
+		// every property is also decided on the builds the default analysis does not see: the debug build
+		// (gocql_debug makes the `if gocqlDebug` branches live) and a 32-bit target (int is 32 bits wide)
+		for _, v := range []Variant{{Name: "gocql_debug", GOARCH: "amd64", Tags: "gocql_debug"}, {Name: "linux/386", GOARCH: "386"}} {
+			dup := ps.SkipVariants[v.Name] != ""
+			for _, w := range variants {
+				if w.Name == v.Name {
+					dup = true
+				}
+			}
+			if !dup {
+				variants = append(variants, v)
+			}
+		}
 	}
 
 	var all []Obligation
 	var unres []string
 	census := map[string]int{}
 	analysed := []map[string]interface{}{}
+	if deep {
+		for name, why := range ps.SkipVariants {
+			analysed = append(analysed, map[string]interface{}{"variant": name, "skipped": why})
+		}
+	}
 	for vi, v := range variants {
 		p, err := Load(*repo, v)
 		if err != nil {
